@@ -9,6 +9,7 @@
 //! parameters the harness chose.
 
 use crate::c02_cms::{self as cms, Bc, Ber, CrlSpec, IdEeSpec, Revoked, SignedData};
+use c10_keys::{bits_of, info_of, key_of, sibling_of, SizedSigner, BIG_BASE, K3072, K4096};
 use crate::core::{hex, Ctx, Rng, Stage, Tier};
 use crate::keys::{sha256, PoolSigner};
 use bytes::Bytes;
@@ -21,8 +22,18 @@ use rpki::repository::x509::{Time, Validity};
 use serde_json::{json, Value};
 use std::str::FromStr;
 
+/// RSA-3072 / RSA-4096 keys and a `Signer` over keys of mixed sizes. Declared
+/// here (file `c10_keys.rs` next to this one) so that `lib.rs` needs no entry.
+#[path = "c10_keys.rs"]
+mod c10_keys;
+
 fn time(t: i64) -> Time {
     Time::new(chrono::DateTime::from_timestamp(t, 0).expect("timestamp in range"))
+}
+
+/// An instant between two whole seconds.
+fn time_ns(t: i64, ns: u32) -> Time {
+    Time::new(chrono::DateTime::from_timestamp(t, ns).expect("timestamp in range"))
 }
 
 const T0: i64 = 1_750_000_000; // 2025-06-15T15:06:40Z
@@ -61,6 +72,14 @@ impl Decoded {
             Decoded::S(m) => m.validate_at(key, time(t)).map_err(|e| e.to_string()),
             Decoded::P(m) => m.validate_at(key, time(t)).map_err(|e| e.to_string()),
             Decoded::U(m) => m.validate_at(key, time(t)).map_err(|e| e.to_string()),
+        }
+    }
+
+    fn validate_at_ns(&self, key: &PublicKey, t: i64, ns: u32) -> Result<(), String> {
+        match self {
+            Decoded::S(m) => m.validate_at(key, time_ns(t, ns)).map_err(|e| e.to_string()),
+            Decoded::P(m) => m.validate_at(key, time_ns(t, ns)).map_err(|e| e.to_string()),
+            Decoded::U(m) => m.validate_at(key, time_ns(t, ns)).map_err(|e| e.to_string()),
         }
     }
 }
@@ -446,15 +465,16 @@ struct BuiltMsg {
 
 fn aki_bytes(pool: &PoolSigner, a: Aki, issuer: usize) -> Option<Vec<u8>> {
     match a {
-        Aki::Issuer => Some(cms::ski_of_spki(&pool.key(issuer).spki)),
+        Aki::Issuer => Some(cms::ski_of_spki(&key_of(pool, issuer).spki)),
         Aki::Absent => None,
-        Aki::OtherKey => Some(cms::ski_of_spki(&pool.key(5).spki)),
+        Aki::OtherKey => Some(cms::ski_of_spki(&key_of(pool, 5).spki)),
     }
 }
 
 fn build(pool: &PoolSigner, m: &Msg) -> BuiltMsg {
-    let other_key = 4;
-    let ee_spki = pool.key(m.ee_key).spki.clone();
+    // "somebody else's key" of the same size as the EE key
+    let other_key = sibling_of(m.ee_key);
+    let ee_spki = key_of(pool, m.ee_key).spki.clone();
     let ski = cms::ski_of_spki(&ee_spki);
     let ee = IdEeSpec {
         serial: m.ee_serial.clone(),
@@ -468,7 +488,7 @@ fn build(pool: &PoolSigner, m: &Msg) -> BuiltMsg {
         bc: m.ee_bc,
         key_usage: m.ee_key_usage,
     };
-    let ee_der = cms::x509_signed(&cms::id_ee_tbs(&ee), pool.key(m.ee_signer));
+    let ee_der = cms::x509_signed(&cms::id_ee_tbs(&ee), key_of(pool, m.ee_signer));
     let other_serial = |k: usize| -> Vec<u8> {
         let mut s = vec![0x40 + k as u8, 0x01];
         if s == m.ee_serial {
@@ -495,7 +515,7 @@ fn build(pool: &PoolSigner, m: &Msg) -> BuiltMsg {
         crl_number: if m.crl_number { Some(77) } else { None },
         general_time: m.crl_general_time,
     };
-    let crl_der = cms::x509_signed(&cms::crl_tbs(&crl), pool.key(m.crl_signer));
+    let crl_der = cms::x509_signed(&cms::crl_tbs(&crl), key_of(pool, m.crl_signer));
 
     let good = sha256(&m.content);
     let digest = match m.tamper {
@@ -553,12 +573,12 @@ fn build(pool: &PoolSigner, m: &Msg) -> BuiltMsg {
     let sorted = cms::attrs_sorted(&attrs);
     let to_sign = if m.sign_der { cms::sort_attrs(&attrs) } else { attrs.clone() };
     let signature = match m.tamper {
-        Tamper::SigOtherKey => pool.key(other_key).sign_raw(&cms::sig_input_set(&to_sign)),
-        Tamper::SigCtx0 => pool.key(m.ee_key).sign_raw(&cms::sig_input_ctx0(&to_sign)),
-        Tamper::SigOverContent => pool.key(m.ee_key).sign_raw(&m.content),
-        _ => pool.key(m.ee_key).sign_raw(&cms::sig_input_set(&to_sign)),
+        Tamper::SigOtherKey => key_of(pool, other_key).sign_raw(&cms::sig_input_set(&to_sign)),
+        Tamper::SigCtx0 => key_of(pool, m.ee_key).sign_raw(&cms::sig_input_ctx0(&to_sign)),
+        Tamper::SigOverContent => key_of(pool, m.ee_key).sign_raw(&m.content),
+        _ => key_of(pool, m.ee_key).sign_raw(&cms::sig_input_set(&to_sign)),
     };
-    let sid = if m.tamper == Tamper::SidOtherKey { cms::ski_of_spki(&pool.key(other_key).spki) } else { ski };
+    let sid = if m.tamper == Tamper::SidOtherKey { cms::ski_of_spki(&key_of(pool, other_key).spki) } else { ski };
     let attrs_len = cms::attrs_len(&attrs);
     let mut sd = SignedData::protocol(m.content.clone(), ee_der, crl_der, sid, attrs, signature);
     sd.content_type = ct;
@@ -629,7 +649,10 @@ fn run_msg(ctx: &mut Ctx, pool: &PoolSigner, m: &Msg, full_plan: bool) -> Option
         if m.sign_der { " signed-der" } else { "" }
     );
     let what_is_special = || -> String {
-        if b.attrs_len >= 128 {
+        if m.label.starts_with("keys:peer") {
+            // peer or EE key above 2048 bits: that is what sets the message apart
+            m.label.clone()
+        } else if b.attrs_len >= 128 {
             format!("signed-attrs{}", cls)
         } else if !m.ber.is_der() {
             format!("ber:{}", m.ber.describe())
@@ -679,7 +702,7 @@ fn run_msg(ctx: &mut Ctx, pool: &PoolSigner, m: &Msg, full_plan: bool) -> Option
             None => None,
         };
         let expected = violated.is_none();
-        let key = pool.info(m.issuer);
+        let key = info_of(pool, m.issuer);
         let Some(r) = ctx.no_panic("validate_at", || msg_json(m, &b), || dec.validate_at(&key, t)) else { continue };
         n += 1;
         let tp = time_position(m, t);
@@ -739,7 +762,7 @@ fn run_msg(ctx: &mut Ctx, pool: &PoolSigner, m: &Msg, full_plan: bool) -> Option
             if !(k == m.ee_signer || k == m.crl_signer || k == m.ee_key || k == 5 || k == 3) {
                 continue;
             }
-            let key = pool.info(k);
+            let key = info_of(pool, k);
             let Some(r) = ctx.no_panic("validate_at-other-key", || msg_json(m, &b), || dec.validate_at(&key, mid)) else { continue };
             n += 1;
             ctx.obs(if r.is_ok() { "accepted" } else { "rejected" }, 1);
@@ -1178,11 +1201,612 @@ pub fn run(ctx: &mut Ctx) {
     crl_extra_extensions(ctx, &pool);
     // ---- the library's own in-memory signer, state carried between calls
     softsigner_histories(ctx, &pool);
+    // ---- instants between seconds; RSA-3072 / RSA-4096 peer and EE keys
+    fine_and_sized(ctx, &pool);
     // ---- bit flips
     let exhaustive = ctx.tier == Tier::Thorough && ctx.stage == Stage::Native;
     let flips = ctx.stage_budget((30_000, 0), if thorough { 12_000 } else { 2_000 }, 0, 1_200);
     run_flips(ctx, &pool, flips, exhaustive);
     ctx.obs("signatures_by_pool_signer", pool.signatures.get());
+}
+
+//------------ part 4: instants between seconds, keys above 2048 bits -----------
+
+/// Sub-second parts tried next to every window end.
+const FRACTIONS: [u32; 3] = [1, 500_000_000, 999_999_999];
+
+fn ns_class(ns: u32) -> &'static str {
+    match ns {
+        0 => "whole-second",
+        1 => "+1ns",
+        500_000_000 => "+0.5s",
+        999_999_999 => "+1s-1ns",
+        _ => "+fraction",
+    }
+}
+
+/// Whether the instant `s + ns / 10^9` lies in the closed window `[lo, hi]`
+/// (X.509 times are whole seconds, both ends inclusive).
+fn in_window(s: i64, ns: u32, lo: i64, hi: i64) -> bool {
+    s >= lo && (s < hi || (s == hi && ns == 0))
+}
+
+/// Position of an instant relative to a window, with the half-open seconds
+/// next to both ends told apart.
+fn fine_class(s: i64, ns: u32, lo: i64, hi: i64) -> &'static str {
+    if ns == 0 {
+        time_class(s, lo, hi)
+    } else if s < lo - 1 {
+        "before"
+    } else if s == lo - 1 {
+        "within-1s-before-start"
+    } else if s > hi {
+        "after"
+    } else if s == hi {
+        "within-1s-after-end"
+    } else if s == hi - 1 {
+        "within-1s-before-end"
+    } else if s == lo {
+        "within-1s-after-start"
+    } else {
+        "inside"
+    }
+}
+
+/// For every bound B: B-1s+f and B+f for the three fractions f.
+fn fine_instants(bounds: &[i64]) -> Vec<(i64, u32)> {
+    let mut v = Vec::new();
+    for b in bounds {
+        for ns in FRACTIONS {
+            v.push((*b - 1, ns));
+            v.push((*b, ns));
+        }
+    }
+    v.sort();
+    v.dedup();
+    v
+}
+
+fn keys_label(pool: &PoolSigner, peer: usize, ee: usize) -> String {
+    format!("keys:peer-rsa{}:ee-rsa{}", bits_of(pool, peer), bits_of(pool, ee))
+}
+
+/// One job of part 4.
+enum FineJob {
+    /// a message made by the library through the harness' `SizedSigner`
+    Created { peer: usize, ee: usize, which: u64 },
+    /// a message of the independent assembler; `whole_plan`: also the
+    /// whole-second / other-key plan of part 2 (`run_msg`)
+    Assembled { m: Msg, whole_plan: bool },
+}
+
+/// (peer identity key, EE key) by ring index: every pair of sizes; the
+/// all-2048 pair comes last so that small budgets start with the big ones.
+fn key_pairs(round: u64, have_big: bool) -> Vec<(usize, usize)> {
+    let r = round as usize;
+    let small_peer = r % 3;
+    let small_ee = 3 + r % 3;
+    if !have_big {
+        return vec![(small_peer, small_ee)];
+    }
+    vec![
+        (small_peer, K3072[r % 3]),
+        (K4096[0], K4096[1]),
+        (K3072[0], small_ee),
+        (small_peer, K4096[r % 2]),
+        (K3072[1], K3072[2]),
+        (K4096[1], small_ee),
+        (K3072[2], K4096[0]),
+        (K4096[0], K3072[1]),
+        (small_peer, small_ee),
+    ]
+}
+
+fn fine_jobs(rng: &mut Rng, round: u64, have_big: bool) -> Vec<FineJob> {
+    let pairs = key_pairs(round, have_big);
+    let mut i = 500_000 + round * 10_000;
+    let mut next = |rng: &mut Rng, e: Entry, label: &str| -> Msg {
+        i += 1;
+        let mut m = Msg::base(e, rng, i);
+        m.label = label.into();
+        m
+    };
+    let with_keys = |m: &mut Msg, peer: usize, ee: usize| {
+        m.issuer = peer;
+        m.ee_signer = peer;
+        m.crl_signer = peer;
+        m.ee_key = ee;
+    };
+    // --- messages created by the library under every pair of key sizes
+    let mut created: Vec<FineJob> = Vec::new();
+    for (pi, (peer, ee)) in pairs.iter().enumerate() {
+        for w in 0..4u64 {
+            created.push(FineJob::Created { peer: *peer, ee: *ee, which: (w + pi as u64 + round) % 4 });
+        }
+    }
+    // --- assembled messages under every pair of key sizes, otherwise plain
+    let mut sized: Vec<FineJob> = Vec::new();
+    let mut controls: Vec<FineJob> = Vec::new();
+    let akis = [(Aki::Issuer, Aki::Issuer), (Aki::Absent, Aki::Issuer), (Aki::Issuer, Aki::Absent), (Aki::Absent, Aki::Absent)];
+    for (pi, (peer, ee)) in pairs.iter().enumerate() {
+        for ei in 0..ENTRIES.len() {
+            let e = ENTRIES[(ei + pi + round as usize) % 4];
+            let mut m = next(rng, e, "keys");
+            with_keys(&mut m, *peer, *ee);
+            m.attrs_total = [None, Some(128usize), None, Some(300)][(ei + pi) % 4];
+            let (a, c) = akis[(ei + round as usize) % 4];
+            m.ee_aki = a;
+            m.crl_aki = c;
+            m.ee_bc = [Bc::Absent, Bc::CaFalse][(ei + pi) % 2];
+            m.crl_rev = if (ei / 2 + pi) % 2 == 0 { Rev::Absent } else { Rev::Others(2) };
+            sized.push(FineJob::Assembled { m, whole_plan: true });
+        }
+        // single violations under the same keys: a library that waves big
+        // keys through must not get away with it (three of seven per round)
+        if *peer >= BIG_BASE || *ee >= BIG_BASE {
+            for c in 0..3usize {
+                let kind = (c * 3 + pi + round as usize) % 7;
+                let e = ENTRIES[(c + pi + round as usize) % 4];
+                let mut m = next(rng, e, "keys-single-violation");
+                with_keys(&mut m, *peer, *ee);
+                match kind {
+                    0 => m.tamper = Tamper::SigOtherKey,
+                    1 => m.tamper = Tamper::SigCtx0,
+                    2 => m.tamper = Tamper::DigestBitFlip,
+                    3 => m.ee_bc = Bc::CaTrue,
+                    4 => m.crl_rev = Rev::ListsEe { n: 2, pos: 1, with_ext: false },
+                    5 => {
+                        m.ee_signer = sibling_of(*peer);
+                        m.ee_aki = Aki::Absent;
+                    }
+                    _ => {
+                        m.crl_signer = sibling_of(*peer);
+                        m.crl_aki = Aki::Absent;
+                    }
+                }
+                controls.push(FineJob::Assembled { m, whole_plan: true });
+            }
+        }
+    }
+    // --- window layouts, looked at between the seconds
+    let mut windows: Vec<FineJob> = Vec::new();
+    let y2050 = cms::unix_from_civil(2050, 1, 1, 0, 0, 0);
+    let mut layouts: Vec<(i64, i64, i64, i64, i64, &str)> = vec![
+        (T0, -300, 100, -100, 300, "ee-ends-first"),
+        (T0, -100, 300, -300, 100, "crl-ends-first"),
+        (T0, -300, 300, -100, 100, "crl-inside-ee"),
+        (T0, -100, 100, -300, 300, "ee-inside-crl"),
+        (T0, -60, 60, -60, 60, "same-window"),
+        (T0, 0, 0, -10, 10, "ee-one-instant"),
+        (T0, -10, 10, 0, 0, "crl-one-instant"),
+        (T0, 0, 300, -300, 0, "touching-at-one-instant"),
+        (T0, 0, 1, 0, 1, "one-second-window"),
+        (y2050, -100, 100, -50, 50, "window-across-2050"),
+        (y2050, -50, 0, -100, 0, "window-ending-with-2049"),
+    ];
+    for _ in 0..3 {
+        let era = if rng.chance(1, 4) { y2050 - 20 } else { T0 + rng.range(0, 100_000) as i64 };
+        layouts.push((era, -(rng.range(0, 40) as i64), rng.range(0, 40) as i64, -(rng.range(0, 40) as i64), rng.range(0, 40) as i64, "random-window"));
+    }
+    for (li, (base, a, b, c, d, label)) in layouts.into_iter().enumerate() {
+        let e = ENTRIES[(li + round as usize) % 4];
+        let mut m = next(rng, e, label);
+        m.ee_nb = base + a;
+        m.ee_na = base + b;
+        m.crl_tu = base + c;
+        m.crl_nu = base + d;
+        let (ea, ca) = akis[(li + round as usize) % 4];
+        m.ee_aki = ea;
+        m.crl_aki = ca;
+        if li % 3 == 2 {
+            let (peer, ee) = pairs[(li / 3 + round as usize) % pairs.len()];
+            with_keys(&mut m, peer, ee);
+        }
+        windows.push(FineJob::Assembled { m, whole_plan: false });
+    }
+    // interleave the four groups so that any prefix is a cross-section
+    let mut groups = [created.into_iter(), sized.into_iter(), controls.into_iter(), windows.into_iter()];
+    let mut out = Vec::new();
+    loop {
+        let mut any = false;
+        for g in groups.iter_mut() {
+            if let Some(j) = g.next() {
+                out.push(j);
+                any = true;
+            }
+        }
+        if !any {
+            break;
+        }
+    }
+    out
+}
+
+/// A message created by the library with the harness' `SizedSigner`
+/// (peer key and one-off EE key of the chosen sizes), decoded again and
+/// validated at whole seconds and between seconds around the EE and the CRL
+/// window, under the peer key; under other keys in the middle.
+#[allow(clippy::too_many_arguments)]
+fn created_sized(ctx: &mut Ctx, pool: &PoolSigner, signer: &SizedSigner, rng: &mut Rng, i: u64, peer: usize, ee: usize, which: u64, have_big: bool) {
+    signer.set_next_one_off(ee);
+    let label = keys_label(pool, peer, ee);
+    let default_keys = peer < BIG_BASE && ee < BIG_BASE;
+    let era: i64 = match rng.below(6) {
+        0 => 2_524_608_000 - 3,  // the window crosses 2049 / 2050
+        1 => 2_524_608_000 - 60, // ends with 2049 (len 60) or before
+        _ => T0 + rng.range(0, 1_000_000) as i64,
+    };
+    let len = *rng.pick(&[1i64, 2, 60, 60, 600, 86_400]);
+    let n = rng.usize_below(200);
+    let data = Bytes::from(rng.bytes(n));
+    let requested: Option<(i64, i64)> = if which < 2 { Some((era, era + len)) } else { None };
+    let made = ctx.no_panic("create-with-sized-signer", || json!({"i": i, "keys": label, "which": which}), || -> Result<(Decoded, Vec<u8>, Entry), String> {
+        match which {
+            0 | 1 => {
+                let m = SignedMessage::create(data, Validity::new(time(era), time(era + len)), &peer, signer).map_err(|e| e.to_string())?;
+                let bytes = m.to_captured().into_bytes().to_vec();
+                Ok((Decoded::S(m), bytes, if which == 0 { Entry::SignedRelaxed } else { Entry::SignedStrict }))
+            }
+            2 => {
+                let s = SenderHandle::from_str(&format!("child-{}", i)).unwrap();
+                let r = RecipientHandle::from_str("parent").unwrap();
+                let m = ProvisioningCms::create(provisioning::Message::list(s, r), &peer, signer).map_err(|e| e.to_string())?;
+                let bytes = m.to_bytes().to_vec();
+                Ok((Decoded::P(m), bytes, Entry::Provisioning))
+            }
+            _ => {
+                let m = PublicationCms::create(publication::Message::list_query(), &peer, signer).map_err(|e| e.to_string())?;
+                let bytes = m.to_bytes().to_vec();
+                Ok((Decoded::U(m), bytes, Entry::Publication))
+            }
+        }
+    });
+    let (in_memory, bytes, entry) = match made {
+        Some(Ok(x)) => x,
+        Some(Err(e)) => {
+            // the signer is the harness' own and does not fail: the library refused
+            ctx.eval();
+            ctx.violation(
+                &format!("C10:created-message:create-fails:{}", label),
+                &format!("creating a message with a working signer fails: {}", e),
+                json!({"keys": label, "peer_key": peer, "ee_key": ee, "which": which}),
+            );
+            return;
+        }
+        None => return,
+    };
+    ctx.obs("fine:created_messages", 1);
+    let (Some((nb, na)), Some((tu, nu))) = (cms::embedded_cert_validity(&bytes), cms::embedded_crl_window(&bytes)) else {
+        ctx.violation(
+            "C10:created-message:not-der-readable",
+            "a message created by the library does not have the RFC 6492 layout (EE certificate, CRL) when read by an independent DER reader",
+            json!({"entry": entry.name(), "keys": label, "message": hex(&bytes)}),
+        );
+        return;
+    };
+    let (lo, hi) = requested.unwrap_or((nb, na));
+    let mid = lo + (hi - lo) / 2;
+    let key = info_of(pool, peer);
+    let mut n = 0u64;
+    let what_keys = |fallback: &str| -> String { if default_keys { fallback.to_string() } else { label.clone() } };
+    // before it is encoded (only in the middle: ProvisioningCms / PublicationCms keep
+    // the fractions of the wall clock in memory, the wire form does not)
+    if let Some(r) = ctx.no_panic("validate-created-before-encoding", || json!({"entry": entry.name(), "keys": label, "message": hex(&bytes)}), || in_memory.validate_at_ns(&key, mid, 0)) {
+        n += 1;
+        ctx.obs(if r.is_ok() { "fine:accepted" } else { "fine:rejected" }, 1);
+        if let Err(e) = &r {
+            ctx.violation(
+                &format!("C10:created-message:rejected-within-validity:before-encoding:{}", what_keys("inside")),
+                &format!("a message created by the library is rejected under the issuing key in the middle of its validity, before it is even encoded: {}", e),
+                json!({"entry": entry.name(), "keys": label, "peer_key": peer, "ee_key": ee, "t": mid, "not_before": nb, "not_after": na, "this_update": tu, "next_update": nu, "message": hex(&bytes)}),
+            );
+        }
+    }
+    let dec = match ctx.no_panic("decode-created", || json!({"entry": entry.name(), "keys": label, "message": hex(&bytes)}), || decode(entry, &bytes)) {
+        Some(Ok(d)) => d,
+        Some(Err(e)) => {
+            ctx.evals(n + 1);
+            ctx.violation(
+                &if default_keys { "C10:created-message:does-not-decode".to_string() } else { format!("C10:created-message:does-not-decode:{}", label) },
+                &format!("a message created by the library is rejected by its own decoder ({}): {}", entry.name(), e),
+                json!({"entry": entry.name(), "keys": label, "message": hex(&bytes)}),
+            );
+            return;
+        }
+        None => return,
+    };
+    // the middle first: if that fails, every other inside instant fails alike
+    let mut plan: Vec<(i64, u32)> = vec![(mid, 0), (mid, 500_000_000), (lo, 0), (hi, 0)];
+    if ctx.stage == Stage::Valgrind {
+        // every validation costs seconds there: one instant next to each end
+        plan.extend([(na, 1), (nb - 1, 999_999_999), (nu, 500_000_000), (tu - 1, 500_000_000)]);
+    } else {
+        plan.extend(fine_instants(&[nb, na, tu, nu]));
+    }
+    let mut seen: Vec<(i64, u32)> = Vec::new();
+    let mut mid_failed = false;
+    let len_class = if hi - lo < 3 { "tiny" } else if hi - lo < 1000 { "minutes" } else { "long" };
+    for (idx, (s, ns)) in plan.into_iter().enumerate() {
+        if seen.contains(&(s, ns)) {
+            continue;
+        }
+        seen.push((s, ns));
+        let expected = in_window(s, ns, lo, hi);
+        let Some(r) = ctx.no_panic("validate-created", || json!({"entry": entry.name(), "keys": label, "t": s, "t_nanoseconds": ns, "message": hex(&bytes)}), || dec.validate_at_ns(&key, s, ns)) else { continue };
+        n += 1;
+        let tc = fine_class(s, ns, lo, hi);
+        ctx.sig(&format!("created-sized {} {} window-len-class={} time={} {}", entry.name(), label, len_class, tc, ns_class(ns)));
+        ctx.obs(if r.is_ok() { "fine:accepted" } else { "fine:rejected" }, 1);
+        if ns != 0 {
+            ctx.obs("fine:created:instants_between_seconds", 1);
+            ctx.obs(&format!("fine:created:{}:{}", tc, if r.is_ok() { "accepted" } else { "rejected" }), 1);
+        }
+        if idx == 0 {
+            ctx.obs(&format!("keysize:created:{}:{}", &label[5..], if r.is_ok() { "accepted" } else { "rejected" }), 1);
+        }
+        let detail = || {
+            json!({"entry": entry.name(), "keys": label, "peer_key": peer, "ee_key": ee, "t": s, "t_nanoseconds": ns, "evaluation_time": time_ns(s, ns).to_rfc3339(),
+                   "not_before": nb, "not_after": na, "this_update": tu, "next_update": nu, "observed": format!("{:?}", r), "message": hex(&bytes)})
+        };
+        if expected && r.is_err() {
+            if idx != 0 && mid_failed {
+                ctx.obs("fine:instants_failing_like_the_middle_one", 1);
+                continue;
+            }
+            if idx == 0 {
+                mid_failed = true;
+            }
+            let what = if idx == 0 { what_keys(tc) } else { tc.to_string() };
+            ctx.violation(
+                &format!("C10:created-message:rejected-within-validity:{}", what),
+                &format!("a message created by the library ({}) is rejected under the issuing key at {} ({}, {}), inside its validity: {}", label, time_ns(s, ns).to_rfc3339(), tc, ns_class(ns), r.clone().unwrap_err()),
+                detail(),
+            );
+        } else if !expected && r.is_ok() {
+            ctx.violation(
+                &format!("C10:created-message:accepted-outside-validity:{}", tc),
+                &format!("a message created by the library ({}) is accepted at {} ({}, {}), outside its validity", label, time_ns(s, ns).to_rfc3339(), tc, ns_class(ns)),
+                detail(),
+            );
+        } else if (ns == 1 && tc == "within-1s-after-end") || (ns == 999_999_999 && tc.starts_with("within-1s-before")) || (idx == 0 && !default_keys) {
+            // the evidence shows the first kinds in alphabetical order: "a0" keeps these visible
+            ctx.sample(if ns != 0 { "a0:between-seconds" } else { "a0:key-sizes" }, || {
+                json!({"source": "created by the library", "entry": entry.name(), "keys": label, "evaluation_time": time_ns(s, ns).to_rfc3339(), "not_before": nb, "not_after": na, "time": tc,
+                       "expected": if expected { "accept" } else { "reject" }, "observed": format!("{:?}", r)})
+            });
+        }
+    }
+    // no other key validates it
+    let mut others: Vec<usize> = vec![(peer + 1) % 3, ee];
+    if have_big {
+        others.extend([K3072[0], K3072[1], K4096[0], K4096[1]]);
+    }
+    others.sort();
+    others.dedup();
+    for k in others {
+        if k == peer {
+            continue;
+        }
+        let other = info_of(pool, k);
+        let Some(r) = ctx.no_panic("validate-created-other-key", || json!({"entry": entry.name(), "keys": label, "key": k, "message": hex(&bytes)}), || dec.validate_at_ns(&other, mid, 0)) else { continue };
+        n += 1;
+        ctx.sig(&format!("created-sized {} {} key={}", entry.name(), label, if k == ee { "ee-key-itself".to_string() } else { format!("other-rsa{}", bits_of(pool, k)) }));
+        ctx.obs(if r.is_ok() { "fine:accepted" } else { "fine:rejected" }, 1);
+        if r.is_ok() {
+            ctx.violation(
+                "C10:created-message:accepted-under-other-key",
+                "a message created by the library validates under a key that did not issue it",
+                json!({"entry": entry.name(), "keys": label, "issuer_key": peer, "ee_key": ee, "validated_under": k, "t": mid, "message": hex(&bytes)}),
+            );
+        }
+    }
+    ctx.evals(n);
+}
+
+/// An assembled message that violates nothing but (possibly) the time is
+/// validated under the peer key at instants between seconds next to all four
+/// window ends; messages under big keys also under keys that did not sign.
+fn run_fine(ctx: &mut Ctx, pool: &PoolSigner, m: &Msg, have_big: bool) {
+    if m.static_violation().is_some() || m.recorded_reason().is_some() {
+        return;
+    }
+    let b = build(pool, m);
+    let sized = m.issuer >= BIG_BASE || m.ee_key >= BIG_BASE;
+    let label = if sized { keys_label(pool, m.issuer, m.ee_key) } else { m.label.clone() };
+    let lo = m.ee_nb.max(m.crl_tu);
+    let hi = m.ee_na.min(m.crl_nu);
+    let Some(dec) = ctx.no_panic("decode", || msg_json(m, &b), || decode(m.entry, &b.bytes)) else { return };
+    let dec = match dec {
+        Ok(d) => d,
+        Err(e) => {
+            ctx.eval();
+            ctx.obs("fine:rejected_at_decode", 1);
+            if lo <= hi {
+                let mut d = msg_json(m, &b);
+                d["observed_error"] = json!(e);
+                ctx.violation(
+                    &format!("C10:valid-rejected:{}", label),
+                    &format!("a correctly signed, current, unrevoked message does not even decode ({}): {}", m.entry.name(), e),
+                    d,
+                );
+            }
+            return;
+        }
+    };
+    ctx.obs("fine:assembled_messages", 1);
+    let key = info_of(pool, m.issuer);
+    let mut plan: Vec<(i64, u32)> = Vec::new();
+    if lo <= hi {
+        plan.push((lo + (hi - lo) / 2, if lo < hi { 500_000_000 } else { 0 }));
+    }
+    let first_is_mid = !plan.is_empty();
+    if ctx.stage == Stage::Valgrind {
+        plan.extend([(m.ee_na, 1), (m.ee_nb - 1, 999_999_999), (m.crl_nu, 500_000_000), (m.crl_tu - 1, 500_000_000)]);
+    } else {
+        plan.extend(fine_instants(&[m.ee_nb, m.ee_na, m.crl_tu, m.crl_nu]));
+    }
+    let mut seen: Vec<(i64, u32)> = Vec::new();
+    let mut mid_failed = false;
+    let mut n = 0u64;
+    for (idx, (s, ns)) in plan.into_iter().enumerate() {
+        if seen.contains(&(s, ns)) {
+            continue;
+        }
+        seen.push((s, ns));
+        let in_ee = in_window(s, ns, m.ee_nb, m.ee_na);
+        let in_crl = in_window(s, ns, m.crl_tu, m.crl_nu);
+        let before = |lo: i64| s < lo;
+        let violated: Option<String> = if !in_ee && !in_crl {
+            Some("time-outside-both-windows".into())
+        } else if !in_ee {
+            Some(format!("ee-{}", if before(m.ee_nb) { "not-yet-valid" } else { "expired" }))
+        } else if !in_crl {
+            Some(format!("crl-{}", if before(m.crl_tu) { "not-yet-valid" } else { "stale" }))
+        } else {
+            None
+        };
+        let expected = violated.is_none();
+        let Some(r) = ctx.no_panic("validate_at", || msg_json(m, &b), || dec.validate_at_ns(&key, s, ns)) else { continue };
+        n += 1;
+        let ec = fine_class(s, ns, m.ee_nb, m.ee_na);
+        let cc = fine_class(s, ns, m.crl_tu, m.crl_nu);
+        let tp = format!("ee:{}/crl:{}", ec, cc);
+        ctx.sig(&format!("fine {} {} aki[{:?},{:?}] time={} {}", m.entry.name(), if sized { label.as_str() } else { "keys-2048" }, m.ee_aki, m.crl_aki, tp, ns_class(ns)));
+        ctx.obs(if r.is_ok() { "fine:accepted" } else { "fine:rejected" }, 1);
+        if ns != 0 {
+            ctx.obs("fine:assembled:instants_between_seconds", 1);
+            ctx.obs(&format!("fine:assembled:ee-window:{}:{}", ec, if r.is_ok() { "accepted" } else { "rejected" }), 1);
+            ctx.obs(&format!("fine:assembled:crl-window:{}:{}", cc, if r.is_ok() { "accepted" } else { "rejected" }), 1);
+        }
+        let detail = || {
+            let mut d = msg_json(m, &b);
+            d["t"] = json!(s);
+            d["t_nanoseconds"] = json!(ns);
+            d["evaluation_time"] = json!(time_ns(s, ns).to_rfc3339());
+            d["observed"] = json!(format!("{:?}", r));
+            d
+        };
+        if expected && r.is_err() {
+            let is_mid = first_is_mid && idx == 0;
+            if !is_mid && mid_failed {
+                ctx.obs("fine:instants_failing_like_the_middle_one", 1);
+                continue;
+            }
+            if is_mid {
+                mid_failed = true;
+            }
+            let what = if is_mid && sized { label.clone() } else { format!("time:{}", tp) };
+            ctx.violation(
+                &format!("C10:valid-rejected:{}", what),
+                &format!("a correctly signed message ({}) that is current at {} ({}, {}) and not revoked was rejected under the peer key: {}", label, time_ns(s, ns).to_rfc3339(), tp, ns_class(ns), r.clone().unwrap_err()),
+                detail(),
+            );
+        } else if !expected && r.is_ok() {
+            let v = violated.clone().unwrap();
+            ctx.violation(
+                &format!("C10:invalid-accepted:{}:{}", v, tp),
+                &format!("a message violating exactly one condition ({}) was accepted at {} ({}, {})", v, time_ns(s, ns).to_rfc3339(), tp, ns_class(ns)),
+                detail(),
+            );
+        } else if (ns == 1 && (ec == "within-1s-after-end" || cc == "within-1s-after-end")) || (ns == 999_999_999 && (ec == "within-1s-before-start" || cc == "within-1s-before-start")) || (first_is_mid && idx == 0 && sized) {
+            ctx.sample(if first_is_mid && idx == 0 && sized { "a0:key-sizes" } else { "a0:between-seconds" }, || {
+                json!({"source": "independent assembler", "entry": m.entry.name(), "label": label, "ee_window": [m.ee_nb, m.ee_na], "crl_window": [m.crl_tu, m.crl_nu], "evaluation_time": time_ns(s, ns).to_rfc3339(),
+                       "time": tp, "expected": if expected { "accept" } else { "reject" }, "observed": format!("{:?}", r)})
+            });
+        }
+    }
+    // under keys of every size that signed nothing of it
+    if sized && lo <= hi && have_big {
+        let mid = lo + (hi - lo) / 2;
+        for k in [0usize, K3072[0], K3072[1], K4096[0], K4096[1]] {
+            if k == m.issuer {
+                continue;
+            }
+            let other = info_of(pool, k);
+            let Some(r) = ctx.no_panic("validate_at-other-key", || msg_json(m, &b), || dec.validate_at_ns(&other, mid, 0)) else { continue };
+            n += 1;
+            ctx.obs(if r.is_ok() { "fine:accepted" } else { "fine:rejected" }, 1);
+            let rel = if k == m.ee_key { "ee-key" } else { "unrelated-key" };
+            ctx.sig(&format!("fine {} {} key={}-rsa{}", m.entry.name(), label, rel, bits_of(pool, k)));
+            if r.is_ok() {
+                let mut d = msg_json(m, &b);
+                d["validated_under_key"] = json!(k);
+                ctx.violation(
+                    &format!("C10:invalid-accepted:validated-under-{}", rel),
+                    "a message validates against a key that did not sign both its EE certificate and its CRL",
+                    d,
+                );
+            }
+        }
+    }
+    ctx.evals(n);
+}
+
+/// Part 4 driver.
+fn fine_and_sized(ctx: &mut Ctx, pool: &PoolSigner) {
+    // RSA-4096 key generation is affordable natively and under ASan (aws-lc is
+    // not instrumented); under valgrind only keys an earlier stage has cached
+    let big = c10_keys::big_keys(ctx.stage != Stage::Valgrind);
+    let have_big = big.is_some();
+    match big {
+        Some(b) => {
+            ctx.obs_max("keysize:rsa3072_keys", b.k3072.len() as u64);
+            ctx.obs_max("keysize:rsa4096_keys", b.k4096.len() as u64);
+            ctx.obs("keysize:keys_generated_by_this_run", b.generated as u64);
+        }
+        None => ctx.notes.push("C10: RSA-3072 / RSA-4096 keys are not in the key cache and are too slow to generate in this stage; the key-size cases of part 4 are skipped, the sub-second ones run with RSA-2048".into()),
+    }
+    let thorough = ctx.tier == Tier::Thorough;
+    let jobs = ctx.stage_budget((330, 12_000), if thorough { 330 } else { 110 }, 0, 8);
+    let signer = SizedSigner::new(pool);
+    let mut rng = ctx.rng("fine-and-sized");
+    let mut done = 0u64;
+    let mut g = 0u64;
+    let mut round = 0u64;
+    'outer: while round < 10_000 {
+        for job in fine_jobs(&mut rng, round, have_big) {
+            let mine = ctx.mine(g);
+            g += 1;
+            if !mine {
+                continue;
+            }
+            match job {
+                FineJob::Created { peer, ee, which } => created_sized(ctx, pool, &signer, &mut rng, g, peer, ee, which, have_big),
+                FineJob::Assembled { m, whole_plan } => {
+                    let mut m = m;
+                    let kl = keys_label(pool, m.issuer, m.ee_key);
+                    if m.label == "keys" {
+                        m.label = if m.issuer >= BIG_BASE || m.ee_key >= BIG_BASE { kl.clone() } else { "keys-all-rsa2048".into() };
+                    }
+                    if whole_plan {
+                        let before = ctx.violation_count();
+                        let ok = run_msg(ctx, pool, &m, ctx.stage != Stage::Valgrind);
+                        if m.static_violation().is_none() {
+                            ctx.obs(&format!("keysize:assembled:{}:{}", &kl[5..], if ok == Some(true) { "accepted" } else { "rejected" }), 1);
+                        } else {
+                            ctx.obs(&format!("keysize:single-violation:{}", if ok == Some(true) { "accepted" } else { "rejected" }), 1);
+                        }
+                        // the message is refused as a whole: the instants between seconds would only repeat that
+                        if ctx.violation_count() > before && ok != Some(true) {
+                            done += 1;
+                            if done >= jobs {
+                                break 'outer;
+                            }
+                            continue;
+                        }
+                    }
+                    run_fine(ctx, pool, &m, have_big);
+                }
+            }
+            done += 1;
+            if done >= jobs {
+                break 'outer;
+            }
+        }
+        round += 1;
+    }
+    ctx.obs("fine:jobs", done);
+    ctx.obs("signatures_by_sized_signer", signer.signatures.get());
 }
 
 //------------ part 2b: other CRL extensions ------------------------------------
